@@ -2,6 +2,7 @@ import XdistModel.Driver.Util
 import XdistModel.Pure.Options
 import XdistModel.Pure.Looponfail
 import XdistModel.Ctl.DSession
+import XdistModel.Pure.SplitScope
 /-
   Line protocol front end for the pure / near-pure functions (one line in, one line out).
 -/
@@ -109,6 +110,12 @@ def handle (st : St) (line : String) : St × String :=
     match parseOptInt explicit, parseOptInt np with
     | some ex, some n => (st, showOptInt (Xdist.Ctl.defaultMaxRestart ex n))
     | _, _ => (st, "bad-op")
+  | ["split", mode, nid] =>
+    let k := if mode = "loadfile" then SplitScope.fileKeyS (unesc nid)
+      else if mode = "loadgroup" then SplitScope.groupKeyS (unesc nid)
+      else SplitScope.scopeKeyS (unesc nid)
+    (st, esc k)
+  | ["tag", nid, g] => (st, esc (unesc nid ++ "@" ++ unesc g))
   | ["tx", l] =>
     match Options.expand ((parseStrList l).map String.toList) with
     | .ok r => (st, s!"ok {showStrList (r.map String.ofList)}")
